@@ -801,7 +801,8 @@ Definition C17_full_statement_v : Prop :=
 (* From events to the recipe (Proofs/EditAnalysis.v).  [parse_model] (Proofs/ParseTotal.v, the
    subject of C03_parse_total) is CooklangParser::parse = analysis . bridge . events, returning the
    recipe of Model/Analysis.v - sections, steps, items, the ingredient / cookware / timer tables with
-   names, aliases, notes, quantities, modifiers and relations, the inline-quantity count; it carries
+   names, aliases, notes, quantities (value, unit, fixed or linear), modifiers and relations, the
+   inline-quantity count; it carries
    no span - and its validity; [parse_meta_model] is the metadata map of the same call
    (Model/MetaMap.v).  [same_parse_cfg ac] = both are EQUAL for the two sources (equal outcomes:
    same recipe, same validity, same panic site if any; that there is no panic is C03_parse_total),
